@@ -132,7 +132,7 @@ pub fn gen_schedules(rng: &mut Rng, odd: bool) -> SchedulesDb {
 }
 
 /// names a user may type: accents, quotes, backslashes, control characters, characters outside the basic multilingual plane
-const ODD_NAMES: [&str; 9] = ["", "Vivienda 🏠 A", "𠀀𠀁 ático", "comillas \"dobles\" y \\ barra", "tab\ty\nsalto", "ñandú €uro", "\u{7f}\u{1}ctl", "𝔘-value 𝟚", "a\u{301}\u{200d}z"];
+const ODD_NAMES: [&str; 12] = ["", "Muro 1/2\" // medianera", "Sala 2\"", "Fachada N//E http://x", "Vivienda 🏠 A", "𠀀𠀁 ático", "comillas \"dobles\" y \\ barra", "tab\ty\nsalto", "ñandú €uro", "\u{7f}\u{1}ctl", "𝔘-value 𝟚", "a\u{301}\u{200d}z"];
 
 pub fn gen_model(rng: &mut Rng, o: &GenOpts) -> Model {
     let mut m = Model::default();
@@ -185,7 +185,12 @@ pub fn gen_model(rng: &mut Rng, o: &GenOpts) -> Model {
         };
         m.cons.materials.push(Material {
             id: rng.uuid(),
-            name: format!("mat{i}"),
+            name: match rng.below(8) {
+                0 => format!("FR Entrevigado de hormigón -Canto 300 mm {i}"),
+                1 => format!("{}{i}", "ó".repeat(24)),
+                2 => format!("a{}{i}", "ñ".repeat(24)),
+                _ => format!("mat{i}"),
+            },
             properties: props,
         });
     }
@@ -200,7 +205,12 @@ pub fn gen_model(rng: &mut Rng, o: &GenOpts) -> Model {
             .collect();
         m.cons.wallcons.push(WallCons {
             id: rng.uuid(),
-            name: format!("wc{i}"),
+            name: match rng.below(8) {
+                0 => format!("Cerramiento de fábrica con cámara y aislamiento térmico {i}"),
+                1 => format!("{}{i}", "é".repeat(20)),
+                2 => format!("b{}{i}", "ü".repeat(20)),
+                _ => format!("wc{i}"),
+            },
             layers,
             absorptance: rng.f(0.2, 0.9, 2),
         });
@@ -460,7 +470,14 @@ pub fn gen_model(rng: &mut Rng, o: &GenOpts) -> Model {
             }
         }
         // sides: S, E, N, W
-        let dev = if o.odd { rng.f(-30.0, 30.0, 1) } else { 0.0 };
+        // odd models: the building is turned by a random angle, or so that a façade falls exactly on a limit of the orientation sectors
+        let dev = if o.odd && rng.chance(1, 3) {
+            *rng.pick(&[18.0f32, 69.0, 120.0, 157.5, 202.5, 240.0, 291.0, 342.0, -18.0, -69.0, -120.0, -157.5])
+        } else if o.odd {
+            rng.f(-30.0, 30.0, 1)
+        } else {
+            0.0
+        };
         let sides: [(f32, f32, Point3); 4] = [
             (0.0, a, point![bx.x0, bx.y0, z]),
             (90.0, b, point![bx.x0 + a, bx.y0, z]),
@@ -602,6 +619,19 @@ pub fn gen_model(rng: &mut Rng, o: &GenOpts) -> Model {
         }
     }
 
+    // ---- remote obstacles: ridges 1.2 to 4 km away to the south, east and west, as high as half their distance (two per side, one
+    // starting at either end, so that one of them stands in front of the building whatever the sense of its local x axis)
+    if o.positions && o.shades > 0 && rng.chance(1, 4) {
+        let d = *rng.pick(&[1200.0f32, 1500.0, 2500.0, 4000.0]);
+        for (k, (az, px, py)) in [(0.0f32, -1.2f32, -1.0f32), (0.0, 1.2, -1.0), (90.0, 1.0, -1.2), (90.0, 1.0, 1.2), (-90.0, -1.0, 1.2), (-90.0, -1.0, -1.2)].iter().enumerate() {
+            m.shades.push(Shade {
+                id: rng.uuid(),
+                name: format!("sierra{k}"),
+                geometry: WallGeom { tilt: 90.0, azimuth: *az, position: Some(point![px * d, py * d, 0.0]), polygon: rect(2.4 * d, 0.5 * d) },
+            });
+        }
+    }
+
     // ---- a louvre: 34 identical slats stacked a few centimetres apart (their centres coincide on two axes, at a decimal coordinate)
     if o.positions && o.shades > 0 && rng.chance(1, 4) {
         let (x0, y0, z0) = (rng.f(-10.0, 30.0, 2), rng.f(-20.0, -3.0, 2), rng.f(0.5, 3.0, 2));
@@ -621,7 +651,10 @@ pub fn gen_model(rng: &mut Rng, o: &GenOpts) -> Model {
             m.overrides.walls.insert(
                 w.id,
                 WallPropsOverrides {
-                    u_value: if rng.chance(4, 5) {
+                    // a user value may be 0 (a boundary of its range)
+                    u_value: if rng.chance(1, 8) {
+                        Some(0.0)
+                    } else if rng.chance(4, 5) {
                         Some(rng.f(0.1, 3.0, 2))
                     } else {
                         None
@@ -640,7 +673,9 @@ pub fn gen_model(rng: &mut Rng, o: &GenOpts) -> Model {
                     } else {
                         None
                     },
-                    f_shobst: if rng.chance(1, 2) {
+                    f_shobst: if rng.chance(1, 6) {
+                        Some(*rng.pick(&[0.0f32, 0.0, 1.0]))
+                    } else if rng.chance(1, 2) {
                         Some(rng.f(0.0, 1.0, 2))
                     } else {
                         None
@@ -650,6 +685,28 @@ pub fn gen_model(rng: &mut Rng, o: &GenOpts) -> Model {
         }
     }
 
+    // odd models: an element may carry the nil id itself (nothing forbids it) and be referred to correctly
+    if o.odd && rng.chance(1, 6) && !m.spaces.is_empty() {
+        let old = m.spaces[0].id;
+        m.spaces[0].id = Uuid::nil();
+        for w in m.walls.iter_mut() {
+            if w.space == old {
+                w.space = Uuid::nil();
+            }
+            if w.next_to == Some(old) {
+                w.next_to = Some(Uuid::nil());
+            }
+        }
+    }
+    if o.odd && rng.chance(1, 6) && !m.cons.wallcons.is_empty() {
+        let old = m.cons.wallcons[0].id;
+        m.cons.wallcons[0].id = Uuid::nil();
+        for w in m.walls.iter_mut() {
+            if w.cons == old {
+                w.cons = Uuid::nil();
+            }
+        }
+    }
     if o.unused {
         add_unused(rng, &mut m);
     }
@@ -784,6 +841,29 @@ pub fn add_unused(rng: &mut Rng, m: &mut Model) {
                 },
             );
         }
+    }
+    // long lists: a construction of 30 layers, each of a material of its own, with an unused material after every second one, and
+    // as many constructions again, every third one unused (survivors far apart in a long list)
+    if rng.chance(1, 3) && !m.walls.is_empty() {
+        let mut layers = vec![];
+        for k in 0..45 {
+            let id = rng.uuid();
+            m.cons.materials.push(Material { id, name: format!("capa{k}"), properties: MatProps::Resistance { resistance: 0.05 + 0.01 * (k % 7) as f32, vapour_diff: None } });
+            if k % 3 != 2 {
+                layers.push(Layer { material: id, e: 0.01 });
+            }
+        }
+        let big = rng.uuid();
+        m.cons.wallcons.push(WallCons { id: big, name: "muchas_capas".into(), layers: layers.clone(), absorptance: 0.6 });
+        let nw = m.walls.len();
+        for k in 0..36 {
+            let id = rng.uuid();
+            m.cons.wallcons.push(WallCons { id, name: format!("variante{k}"), layers: layers[..(1 + k % 5)].to_vec(), absorptance: 0.6 });
+            if k % 3 != 2 {
+                m.walls[(k * 7) % nw].cons = id;
+            }
+        }
+        m.walls[0].cons = big;
     }
     // ids are unique within each list only: an unused weekly schedule may carry the id of a yearly one that is in use, an unused daily
     // one the id of a weekly one in use
